@@ -164,7 +164,8 @@ def gen(rng):
     elif r < 0.70:
         i = rng.randrange(len(fields))
         mut = "rename:" + fields[i][0]
-        fields = fields[:i] + [(rng.choice(["beautiful", "ids", "error_handler", "Id", "lifecycle", "allow_unused", "default"]), fields[i][1])] + fields[i + 1:]
+        new = rng.choice([k for k in ["beautiful", "ids", "error_handler", "Id", "lifecycle", "allow_unused", "default"] if k != fields[i][0]])
+        fields = fields[:i] + [(new, fields[i][1])] + fields[i + 1:]
     elif r < 0.82:
         i = rng.randrange(len(fields))
         v = fields[i][1]
